@@ -218,6 +218,13 @@ Theorem C05_parameter_derivative_gaussian_gamma : forall n g C X1 X2, shapes A n
   wsumP A zero add mul (k_gauss D (dzero A zero) (dadd A add) (dmul A add mul) (dsub A sub) (dopp A opp) (dexp A mul expA) (g, one)) C X1 X2
   = wpd A zero add mul (p_gauss A zero add mul sub opp expA g) C X1 X2.
 Proof. exact (wpd_gauss_correct A zero one add mul sub div opp inv le expA OF). Qed.
+(* WS / wsumP are the tangent components of the model's own weighted kernel sum (C05Model.wsumk) run on dual numbers *)
+Theorem C05_weighted_sum_tangent_inputs : forall kD C X1 dX1 X2,
+  snd (wsumk D (dzero A zero) (dadd A add) (dmul A add mul) kD (map (cstv A zero) C) (zipdual A X1 dX1) (map (cstv A zero) X2)) = WS kD C X1 dX1 X2.
+Proof. exact (wsumD_is_tangent A zero one add mul sub div opp inv le OF). Qed.
+Theorem C05_weighted_sum_tangent_parameter : forall kD C X1 X2,
+  snd (wsumk D (dzero A zero) (dadd A add) (dmul A add mul) kD (map (cstv A zero) C) (map (cstv A zero) X1) (map (cstv A zero) X2)) = wsumP A zero add mul kD C X1 X2.
+Proof. exact (wsumP_is_tangent A zero one add mul sub div opp inv le OF). Qed.
 (* what the tangent means: for + and * the dual component is the coefficient of t, with explicit remainder *)
 Theorem C05_dual_numbers_sound : forall t (p q : D),
   add (re A add mul t p) (re A add mul t q) = re A add mul t (dadd A add p q) /\
@@ -281,6 +288,8 @@ Print Assumptions C05_input_derivative_gaussian.
 Print Assumptions C05_input_derivative_scaled.
 Print Assumptions C05_parameter_derivative_polynomial_offset.
 Print Assumptions C05_parameter_derivative_gaussian_gamma.
+Print Assumptions C05_weighted_sum_tangent_inputs.
+Print Assumptions C05_weighted_sum_tangent_parameter.
 Print Assumptions C05_dual_numbers_sound.
 Print Assumptions C05_monomial_degree1_orthogonal_gradient_refuted.
 
